@@ -12,6 +12,8 @@
  *   PV_FAULT_REPORT=<path>   at exit append "calls=<n> fired=<m>"
  *   PV_DELAY_AFTER_WRITE_US=<us> / PV_DELAY_BEFORE_READ_US=<us>   sleep around every write / read on descriptors > 2
  *                            (nothing is dropped or reordered: pins one legal schedule of the threads)
+ *   PV_FAULT_FSYNC_REGULAR=<errno>   every fsync of a regular file fails with that errno (a write-back error of the output
+ *                           file); other descriptors are left alone
  *   PV_DELAY_AFTER_UNLOCK_US=<us>[:<n>]   sleep after every n-th (default 3rd) pthread_mutex_unlock: widens the window between the
  *                           end of a critical section and the statement after it (a legal schedule; nothing is reordered)
  *   PV_DELAY_ONLY=<name>     apply the delays only in the process whose program name ends with <name>
@@ -210,7 +212,17 @@ ssize_t write(int fd, const void *buf, size_t count) {
   return r;
 }
 
+#include <sys/stat.h>
 int fsync(int fd) {
+  {
+    const char *fr = getenv("PV_FAULT_FSYNC_REGULAR");
+    struct stat st;
+    if (fr && !fstat(fd, &st) && S_ISREG(st.st_mode)) {
+      pthread_mutex_lock(&mu); init(); ++fired; note_fired(); pthread_mutex_unlock(&mu);
+      errno = atoi(fr);
+      return -1;
+    }
+  }
   if (watched(fd)) {
     long d = decide(2, 0);
     if (d == -1) return -1;
